@@ -52,7 +52,7 @@ def run(ctx):
 
     for v in (2, 3):
         # which CVSSError subclass is raised does not matter here (all are caught): the .kinds rules stay with C04
-        keep = ("C04.init", "C04.raw", "C04.phases", "C04.store", "C04.tables", "C04.prefix", "C04.hierarchy")
+        keep = ("C04.init", "C04.raw", "C04.phases", "C04.store", "C04.tables", "C04.prefix", "C04.hierarchy", "C04.semantic")
         parse_summary(ctx, v, RelabelLedger(led, "C13.accept", keep=keep, strip="C04."))
         RAcc.check_tables(ctx, RelabelLedger(led, "C13.accept.tables", keep=("C04.tables", "C04.escape"), strip="C04.tables"), v)
         RAcc.check_mandatory(ctx, RelabelLedger(led, "C13.accept.mandatory", keep=("C04.mandatory",), strip="C04.mandatory"), v)
